@@ -63,6 +63,7 @@ type In struct {
 	NIDs     int       `json:"nids"`
 	Sessions []Session `json:"sessions"`
 	Builder  []sw.Op   `json:"builder,omitempty"`  // c14: the index is first made by the offline Builder from these documents
+	KillUS   int       `json:"kill_us,omitempty"`  // c03: SIGKILL the first session after this many microseconds (no hook involved)
 	Rollback int       `json:"rollback,omitempty"` // c13: after session index Rollback-1, roll back to point #RollbackPick
 	Pick     int       `json:"pick,omitempty"`
 }
@@ -140,6 +141,17 @@ func gen(f vh.Flags, r *vrand.R, emit func(In)) {
 				s2.Crash = &Crash{vrand.Pick(r, points), r.Range(1, 5)}
 			}
 			in.Sessions = []Session{s1, s2, {}}
+			emit(in)
+		}
+		// arbitrary wall-clock instants: SIGKILL, no hook involved
+		nk := f.N(12, 600)
+		for k := 0; k < nk; k++ {
+			nids := r.Range(3, 6)
+			var ver int64
+			in := In{Mode: mode, NIDs: nids, Layout: sw.Layout{Config: "scorch-disk", Opts: r.Intn(5)}, KillUS: r.Range(2000, 300000)}
+			s1 := Session{Actions: genActions(r, nids, r.Range(8, 20), &ver, []int{0, 200, 2000}, 4)}
+			s2 := Session{Actions: genActions(r, nids, r.Range(1, 4), &ver, []int{200}, 0)}
+			in.Sessions = []Session{s1, s2}
 			emit(in)
 		}
 	case "c13":
@@ -445,6 +457,7 @@ func childMain(specJSON string) {
 				})
 			}
 			atomic.AddInt64(&nSubmitted, 1)
+			note(sw.Note("submit", uint64(seq)))
 			if err := idx.Batch(b); err != nil {
 				fmt.Fprintln(os.Stderr, "child: batch:", err)
 				os.Exit(7)
@@ -598,6 +611,13 @@ func (d slowDir) GetWriter(filePath string) (io.WriteCloser, error) {
 // ---------------------------------------------------------------- parent
 
 func runChild(spec childSpec) (evs []*scorch.VerifEvent, code int, stderr string, err error) {
+	return runChildKill(spec, 0)
+}
+
+// runChildKill runs a child session and, when killAfter > 0, sends it SIGKILL that long after the
+// child reported that the index is open and armed (its first "submit" note) - or at the latest
+// killAfter + 2s after start.
+func runChildKill(spec childSpec, killAfter time.Duration) (evs []*scorch.VerifEvent, code int, stderr string, err error) {
 	sj, _ := json.Marshal(spec)
 	cmd := exec.Command(os.Args[0])
 	cmd.Env = append(os.Environ(), "VH_CHILD="+string(sj))
@@ -614,10 +634,15 @@ func runChild(spec childSpec) (evs []*scorch.VerifEvent, code int, stderr string
 	go func() {
 		sc := bufio.NewScanner(pipe)
 		sc.Buffer(make([]byte, 1<<20), 1<<26)
+		armedKill := false
 		for sc.Scan() {
 			var ev scorch.VerifEvent
 			if json.Unmarshal(sc.Bytes(), &ev) == nil {
 				evs = append(evs, &ev)
+				if killAfter > 0 && !armedKill && ev.Kind == "note" && ev.Name == "submit" {
+					armedKill = true
+					time.AfterFunc(killAfter, func() { _ = cmd.Process.Kill() })
+				}
 			}
 		}
 		close(done)
@@ -714,6 +739,9 @@ func exec_(in In) vh.Result {
 	rolledBack := false
 	if in.Builder != nil {
 		return execBuilder(in, dir, path)
+	}
+	if in.KillUS > 0 {
+		return execKill(in, dir, path)
 	}
 	for si, s := range in.Sessions {
 		spec := childSpec{Path: path, Layout: in.Layout, NIDs: in.NIDs, Session: s, TagBase: tagBase, First: si == 0}
@@ -934,6 +962,76 @@ func execBuilder(in In, dir, path string) vh.Result {
 	}
 	return vh.Result{Term: cf.App("CPrefix", cf.List(batches), cf.List(copies), cf.Nat(finalLo), docsTerm(final)), Nontrivial: len(copies) > 0,
 		Hist: []string{"builder-made-index", fmt.Sprintf("builder:copies=%d", len(copies))}, Key: fmt.Sprintf("builder/%d", len(batches))}
+}
+
+// execKill: the first session is killed with SIGKILL at an arbitrary wall-clock instant.  The event
+// log can lag behind the disk then, so the run is judged by the statement (DiskCorr.check_kill).
+func execKill(in In, dir, path string) vh.Result {
+	opsTerm := func(s Session) []cf.T {
+		var out []cf.T
+		for _, a := range s.Actions {
+			if a.Kind == "batch" {
+				d, _ := sw.OpsTerms(a.Ops)
+				out = append(out, cf.List(d))
+			}
+		}
+		return out
+	}
+	docsTerm := func(args []uint64) cf.T {
+		var ds []cf.T
+		for i, a := range args {
+			if a == 0 {
+				ds = append(ds, cf.Pair(cf.Int(i), cf.None))
+			} else {
+				ds = append(ds, cf.Pair(cf.Int(i), cf.Some(cf.Z(int64(a)-1))))
+			}
+		}
+		return cf.List(ds)
+	}
+	evs, code, stderr, err := runChildKill(childSpec{Path: path, Layout: in.Layout, NIDs: in.NIDs, Session: in.Sessions[0], First: true}, time.Duration(in.KillUS)*time.Microsecond)
+	if err != nil {
+		return vh.Result{Direct: &vh.Direct{Kind: "error", Detail: err.Error()}}
+	}
+	if code != -1 && code != 0 && code != 137 {
+		return vh.Result{Direct: &vh.Direct{Kind: "child-failed", Detail: fmt.Sprintf("killed session exit %d: %s", code, lastLines(stderr, 8))}}
+	}
+	lo, hi := 0, 0
+	for _, e := range evs {
+		if e.Kind == "note" && e.Name == "ack" {
+			lo++
+		}
+		if e.Kind == "note" && e.Name == "submit" {
+			hi++
+		}
+	}
+	obs := func(s Session, base int64) ([]uint64, *vh.Direct) {
+		evs, code, stderr, err := runChild(childSpec{Path: path, Layout: in.Layout, NIDs: in.NIDs, Session: s, TagBase: base})
+		if err != nil {
+			return nil, &vh.Direct{Kind: "error", Detail: err.Error()}
+		}
+		if code == 4 {
+			return nil, &vh.Direct{Kind: "reopen-failed", Detail: fmt.Sprintf("the index could not be opened after SIGKILL %d us into the workload: %s", in.KillUS, lastLines(stderr, 6))}
+		}
+		if code != 0 {
+			return nil, &vh.Direct{Kind: "child-failed", Detail: fmt.Sprintf("exit %d: %s", code, lastLines(stderr, 8))}
+		}
+		for _, e := range evs {
+			if e.Kind == "note" && e.Name == "observe" {
+				return e.Args, nil
+			}
+		}
+		return nil, &vh.Direct{Kind: "error", Detail: "no observation"}
+	}
+	o1, d := obs(in.Sessions[1], 1000)
+	if d != nil {
+		return vh.Result{Direct: d, Class: "reopen-failed"}
+	}
+	o2, d := obs(Session{}, 2000)
+	if d != nil {
+		return vh.Result{Direct: d}
+	}
+	return vh.Result{Term: cf.App("CKill", cf.List(opsTerm(in.Sessions[0])), cf.Nat(lo), cf.Nat(hi), docsTerm(o1), cf.List(opsTerm(in.Sessions[1])), docsTerm(o2)),
+		Nontrivial: hi > 0 && hi < len(opsTerm(in.Sessions[0])), Hist: []string{"sigkill", fmt.Sprintf("sigkill:acked=%d", min(lo, 9))}, Key: fmt.Sprintf("kill/%d/%d/%d", in.KillUS, lo, hi)}
 }
 
 func describePrev(in In, si int) string {
